@@ -186,11 +186,17 @@ def delaunay_rule(ctx, p, K):
     m = c.lookup("pix_sub_weights")
     cs = wire.calls_to(p, m, f.key)
     got = {k: norm_text(wire.strip_np_array(v)) for k, v in wire.kw(cs[0], f).items()} if len(cs) == 1 else {}
-    ctx.ob(rule, m.key + ":weights-call", got == {"source_plane_data_grid": "self.source_plane_data_grid", "source_plane_mesh_grid": "self.source_plane_mesh_grid", "slim_index_for_sub_slim_index": "self.slim_index_for_sub_slim_index", "pix_indexes_for_sub_slim_index": "mappings"},
+    # the vertex table handed over is the (integer-cast) first result of the vertex routine
+    vt = wire.kw(cs[0], f).get("pix_indexes_for_sub_slim_index") if len(cs) == 1 else None
+    vcalls = wire.calls_to(p, m, g.key)
+    vt_ok = isinstance(vt, ast.Name) and len(vcalls) == 1 and any(isinstance(n, ast.Assign) and n.value is vcalls[0] and isinstance(n.targets[0], ast.Tuple) and norm_text(n.targets[0].elts[0]) == vt.id for n in m.body_nodes())
+    if vt_ok:
+        got["pix_indexes_for_sub_slim_index"] = "<vertex table>"
+    ctx.ob(rule, m.key + ":weights-call", got == {"source_plane_data_grid": "self.source_plane_data_grid", "source_plane_mesh_grid": "self.source_plane_mesh_grid", "slim_index_for_sub_slim_index": "self.slim_index_for_sub_slim_index", "pix_indexes_for_sub_slim_index": "<vertex table>"},
            where=m, node=cs[0] if cs else m.node, construct=str(got), message="the weights must be computed for the mapper's own data grid and mesh grid, with the vertex table just computed")
     cs = wire.calls_to(p, m, g.key)
-    got = {k: norm_text(wire.strip_np_array(v)) for k, v in wire.kw(cs[0], g).items()} if len(cs) == 1 else {}
-    ctx.ob(rule, m.key + ":vertices-call", got == {"source_plane_data_grid": "self.source_plane_data_grid", "simplex_index_for_sub_slim_index": "simplex_index_for_sub_slim_index", "pix_indexes_for_simplex_index": "pix_indexes_for_simplex_index", "delaunay_points": "delaunay.points"},
+    got = wire.kwr(m, cs[0], g) if len(cs) == 1 else {}
+    ctx.ob(rule, m.key + ":vertices-call", got == {"source_plane_data_grid": "self.source_plane_data_grid", "simplex_index_for_sub_slim_index": "self.delaunay.find_simplex(self.source_plane_data_grid)", "pix_indexes_for_simplex_index": "self.delaunay.simplices", "delaunay_points": "self.delaunay.points"},
            where=m, node=cs[0] if cs else m.node, construct=str(got), message="the vertex table must come from the triangulation's own simplices / points and the simplex found for the data grid")
     txt = {norm_text(n.targets[0]): norm_text(n.value) for n in m.body_nodes() if isinstance(n, ast.Assign)}
     ctx.ob(rule, m.key + ":simplex", txt.get("simplex_index_for_sub_slim_index") == "delaunay.find_simplex(self.source_plane_data_grid)" and txt.get("pix_indexes_for_simplex_index") == "delaunay.simplices" and txt.get("delaunay") == "self.delaunay",
@@ -307,7 +313,7 @@ def grids_rule(ctx, p):
             kw = wire.kwtext(rel[0])
             ok = ok and kw.get("border_relocator") == "border_relocator" and kw.get("source_plane_data_grid") == "source_plane_data_grid" and at.get(id(wire.kw(rel[0])["source_plane_data_grid"])) == ("param", "source_plane_data_grid")
             mgm = wire.kw(mg[0]).get("source_plane_mesh_grid")
-            ok = ok and isinstance(mgm, ast.Name) and at.get(id(mgm)) == ("value", id(mesh[0]))
+            ok = ok and (mgm is mesh[0] or (isinstance(mgm, ast.Name) and at.get(id(mgm)) == ("value", id(mesh[0]))))
         ctx.ob(rule, m.key, ok, where=m, node=mg[0] if mg else m.node, construct=det,
                message="the mapper must keep the SAME relocated data grid that its mesh was built from; with the un-relocated grid, sub-pixels outside the border fall outside the mesh and are paired with cells that do not contain them")
     ctx.require_count(rule, "mesh classes", n, 2)
